@@ -10,6 +10,7 @@ RULE = ("seeded GC configurations (disabled / age / age+override / cutoff-date x
         "carrying 1-5 leases whose renewal times straddle the policy threshold by seconds and days; shares and leases are created through the real "
         "StorageServer API at controlled simulated times, then the real LeaseCheckingCrawler (built by StorageServer from expiration_* kwargs) runs "
         "1-2 full cycles; oracle = documented predicate per lease; non-trivial = at least one share examined; distinct = (policy, outcome counts)")
+RULE += "; plus slow disks (0.3-1.2 simulated seconds per bucket: multi-slice cycles), buckets crowded into 1-2 prefix directories, and the policy delivered through tahoe.cfg and the client's own option parsing (drawn boolean spellings) in 40% of runs"
 TECHNIQUE = "deterministic simulation: simulated clock over lease histories, real lease crawler, reference expiry predicate"
 LEVEL_TEXT = "seeded search over policies and lease-age histories with an executable reference predicate"
 LEVEL_NOTE = ("trusted: the reference predicate (renew+duration<now / renew<cutoff), the sim clock; real: StorageServer, LeaseCheckingCrawler, share containers. "
